@@ -112,3 +112,49 @@ contract(DEP + 'Initiator.exchange', 'C04', dict(self=INI(), send_data=Bytes(1, 
                                                                 'recv_data': Bytes(0, None, mutable=True)})})
 contract(DEP + 'Initiator.send_dep_req_recv_dep_res', 'C04', dict(self=Any(), req=Any(), rwt=Any(), timeout=Any()),
          name='C04/sentinel.transport', assumed=True, requires=['len(req.data) < self.miu'], raises=ERRS, returns=RES())
+
+# The Target's transport step itself (the contract C04/Target.transport that Target.exchange relies on is no
+# longer only assumed for its recovery rules): what is handed to the frame exchange after each kind of request.
+# The frame exchange below it is replaced by a contract that records the kind of the request it returned in
+# ghost fields; the recovery rules are its preconditions, i.e. obligations at the call site inside the loop:
+#   a request repeated with the current PNI, or a NAK, is answered by the pending response (never by an ATN
+#   response or nothing); an attention request is answered by an attention response
+TREQ2 = lambda: Obj(DEP + 'DEP_REQ', _partial=False, pfb=PFB('DEP_REQ'), did=Opt(Int(0, 14)), nad=None,   # noqa
+                    data=Bytes(0, 255, mutable=True))
+contract(DEP + 'Target.send_res_recv_req', 'C04', dict(self=Any(), res=Any(), deadline=Any()),
+         name='C04/Target.frame-exchange', assumed=True,
+         note='encode_frame + clf.exchange + decode_frame on the Target: returns the next decoded request PDU, or '
+              'None; ghost: which recovery rule the returned request triggers',
+         requires=[('resend-on-repeat', 'not self._g_repeat or res is self._g_pending'),
+                   ('resend-on-nak', 'not self._g_nak or res is self._g_pending'),
+                   ('attention', 'not self._g_atn or (res is not None and res is not self._g_pending and '
+                                 'type(res) == DEP_RES and res.pfb.fmt == 8 and res.did == self.did)')],
+         modifies={'self._g_repeat': Bool(), 'self._g_nak': Bool(), 'self._g_atn': Bool()},
+         ensures=['self._g_repeat == (type(result) == DEP_REQ and result.did == self.did and '
+                  '(result.pfb.fmt == 0 or result.pfb.fmt == 1 or result.pfb.fmt == 4) and '
+                  'result.pfb.pni == self.pni)',
+                  'self._g_nak == (type(result) == DEP_REQ and result.did == self.did and result.pfb.fmt == 5)',
+                  'self._g_atn == (type(result) == DEP_REQ and result.did == self.did and result.pfb.fmt == 8)'],
+         raises=ERRS,
+         returns=OneOf(None, TREQ2(), Obj(DEP + 'DSL_REQ', _partial=False, did=Opt(Int(0, 14))),
+                       Obj(DEP + 'RLS_REQ', _partial=False, did=Opt(Int(0, 14))),
+                       Obj(DEP + 'ATR_REQ', _partial=True, did=Opt(Int(0, 14)))))
+TT = 'nfc.dep.Target.send_dep_res_recv_dep_req'
+contract(DEP + 'Target.send_dep_res_recv_dep_req', 'C04',
+         dict(self=Obj(DEP + 'Target', miu=Int(1, 251), pni=Int(0, 3), did=Opt(Int(1, 14)), nad=None, cmd=None,
+                       rwt=Const(0.1), _g_repeat=False, _g_nak=False, _g_atn=False, _g_pending=Ref('dep_res')),
+              dep_res=Obj(DEP + 'DEP_RES', _partial=False, pfb=PFB('DEP_RES'), did=Ref('self.did'), nad=None,
+                          data=Bytes(0, 251, mutable=True)),
+              deadline=Const(1.0)),
+         name='C04/Target.send_dep_res_recv_dep_req', use=['C04/Target.frame-exchange'],
+         requires=['dep_res.pfb.fmt != 8'],
+         ensures=[('O-transport.kind', 'result is None or type(result) != DEP_RES')],
+         raises=ERRS,
+         loops={(TT, 'While', 0): LoopSpec(
+             invariant=['implies(self._g_repeat or self._g_nak, res is dep_res)',
+                        'implies(self._g_atn, res is not None and res is not dep_res and type(res) == DEP_RES '
+                        'and res.pfb.fmt == 8 and res.did == self.did)',
+                        'not (self._g_atn and (self._g_repeat or self._g_nak))'],
+             havoc={'res': '(dep_res, None, ATN(self.did, self.nad))[nondet_int(0, 2)]',
+                    'self._g_repeat': Bool(), 'self._g_nak': Bool(), 'self._g_atn': Bool(),
+                    'dep_req': Const(None)})})
